@@ -1,48 +1,32 @@
 """C23 — library evaluator vs the CLI's generic evaluator on every program (jq model as third voice)."""
-import re
-
-_STATS = {"n": 0, "in_fragment": 0, "parse_error": 0, "agree_checked": 0}
 
 _BASE_EXPL = ("in-process differential: `jq::eval` vs `eval_generic::eval_with_cursor` on grammar-generated programs "
               "(depth 1-4) x generated inputs (duplicate keys, edge numbers, non-ASCII); implementation-vs-implementation "
               "disagreement is reported as EVALS-DISAGREE (always a violation); for programs inside the Lean model's fragment "
-              "the common answer is additionally compared with the model's run line")
+              "the common answer is additionally compared with the model's run line (coverage.in_fragment_rate)")
 
 
-class _Ans(str):
-    """Answer wrapper: equal to the other side when the model has no verdict (OUT-OF-FRAGMENT) or the
-    program does not parse in the implementation, unless the implementation reports EVALS-DISAGREE / PANIC."""
-
-    def _skip(self, other):
-        a, b = str(self), str(other)
-        if "EVALS-DISAGREE" in a or "EVALS-DISAGREE" in b or a.startswith("PANIC") or b.startswith("PANIC"):
-            return False
-        return ("OUT-OF-FRAGMENT" in a or "OUT-OF-FRAGMENT" in b or a == "PARSE-ERROR" or b == "PARSE-ERROR")
-
-    def __eq__(self, other):
-        return self._skip(other) or str(self) == str(other)
-
-    def __ne__(self, other):
-        return not self.__eq__(other)
-
-    __hash__ = str.__hash__
+def _verdict(req, impl, model):
+    """EVALS-DISAGREE / PANIC always count; no model verdict (OUT-OF-FRAGMENT) or a program the
+    implementation's parser rejects is a skip; otherwise the run lines must be identical."""
+    if impl.startswith("EVALS-DISAGREE") or impl.startswith("PANIC"):
+        return "disagree"
+    if "OUT-OF-FRAGMENT" in model or impl == "PARSE-ERROR":
+        return "skip"
+    return "agree" if impl == model else "disagree"
 
 
-def _canon(req, out):
-    # called for the implementation side first, then for the model side
-    if out == "PARSE-ERROR":
-        _STATS["parse_error"] += 1
-    elif "OUT-OF-FRAGMENT" in out:
-        _STATS["n"] += 1
-    elif not out.startswith("EVALS-DISAGREE") and _STATS.get("_side", 0) == 1:
-        _STATS["n"] += 1
-        _STATS["in_fragment"] += 1
-    _STATS["_side"] = 1 - _STATS.get("_side", 0)
-    if _STATS["n"] and _STATS["_side"] == 0:
-        CFG["explanation"] = (_BASE_EXPL + f"; model verdicts on this run: {_STATS['in_fragment']}/{_STATS['n']} "
-                              f"parsed programs in fragment ({100.0 * _STATS['in_fragment'] / max(1, _STATS['n']):.1f} %), "
-                              f"{_STATS['parse_error']} generated programs rejected by the implementation's parser")
-    return _Ans(out)
+def _counters(triples):
+    parsed = [t for t in triples if t[1] != "PARSE-ERROR"]
+    infr = [t for t in parsed if "OUT-OF-FRAGMENT" not in t[2]]
+    return {
+        "programs_generated": len(triples),
+        "programs_rejected_by_impl_parser": len(triples) - len(parsed),
+        "in_fragment": len(infr),
+        "in_fragment_rate": round(len(infr) / max(1, len(parsed)), 4),
+        "evals_disagree": sum(1 for t in triples if t[1].startswith("EVALS-DISAGREE")),
+        "impl_panics": sum(1 for t in triples if t[1].startswith("PANIC")),
+    }
 
 
 def _nontrivial(req, out):
@@ -64,7 +48,8 @@ CFG = {
                    "SuccinctlyVerif/Model/JqValue.lean", "SuccinctlyVerif/Model/JqParse.lean",
                    "SuccinctlyVerif/Model/JqPrelude.lean", "SuccinctlyVerif/Model/JsonPrint.lean"],
     "generated": [],
-    "canon": _canon,
+    "verdict": _verdict,
+    "counters": _counters,
     "nontrivial": _nontrivial,
     "rule": "request = (program text, input JSON); distinct request lines whose run is not a parse error and not an empty run",
     "explanation": _BASE_EXPL,
